@@ -45,6 +45,53 @@ pub mod numopt {
     }
 }
 
+/// Strict deserialization for addresses: a `0x` prefix followed by exactly 40
+/// hexadecimal digits.
+pub mod address {
+    use ethaddr::Address;
+    use serde::{
+        de::{self, Deserializer},
+        Deserialize as _,
+    };
+    use std::borrow::Cow;
+
+    pub fn deserialize<'de, D>(deserializer: D) -> Result<Address, D::Error>
+    where
+        D: Deserializer<'de>,
+    {
+        let s = Cow::<str>::deserialize(deserializer)?;
+        // NOTE: `ethaddr` tolerates a repeated `0x` prefix (for example
+        // `0x0xdead...beef`), so check the shape of the string first.
+        let digits = s
+            .strip_prefix("0x")
+            .ok_or_else(|| de::Error::custom("address missing '0x' prefix"))?;
+        if digits.len() != 40 || !digits.bytes().all(|b| b.is_ascii_hexdigit()) {
+            return Err(de::Error::custom(
+                "address must be exactly 20 hex-encoded bytes",
+            ));
+        }
+        s.parse().map_err(de::Error::custom)
+    }
+}
+
+/// Strict deserialization for optional addresses.
+pub mod addressopt {
+    use ethaddr::Address;
+    use serde::{Deserialize, Deserializer};
+
+    #[derive(Deserialize)]
+    #[serde(transparent)]
+    struct Helper(#[serde(with = "super::address")] Address);
+
+    pub fn deserialize<'de, D>(deserializer: D) -> Result<Option<Address>, D::Error>
+    where
+        D: Deserializer<'de>,
+    {
+        let option = Option::<Helper>::deserialize(deserializer)?;
+        Ok(option.map(|Helper(v)| v))
+    }
+}
+
 /// Dynamic byte array serialization methods.
 pub mod bytes {
     use serde::{
